@@ -34,8 +34,11 @@ class Stall(Exception):
 class Clock(object):
     def __init__(self):
         self.t = 1000.0
+        self.frozen = set()      # threads (the Target) whose deadlines never expire
 
     def time(self):
+        if threading.get_ident() in self.frozen:
+            return 1000.0
         return self.t
 
     def sleep(self, d):
@@ -221,7 +224,7 @@ class Result(object):
     pass
 
 
-def run_pair(brty, did, nad, lri, lrt, script, rel, pi, pt, miu_i=None, miu_t=None, exc_name=None):
+def run_pair(brty, did, nad, lri, lrt, script, rel, pi, pt, miu_i=None, miu_t=None, exc_name=None, t_rtox=None):
     """two real nfc.dep objects, real activate() on both sides, then the conversation.
     returns Result(wire, got_i, err_i, err_d, got_t, status_t, imiu, tmiu, tdid, anomalies)"""
     patch_clock()
@@ -235,12 +238,14 @@ def run_pair(brty, did, nad, lri, lrt, script, rel, pi, pt, miu_i=None, miu_t=No
     res.got_i, res.got_t, res.err_i, res.err_d, res.status_t = [], [], "ok", "ok", "?"
     res.tmiu = res.tdid = None
     res.msg_i = res.msg_t = ""
+    res.rtox_answers = []
     stopped = []
 
     def name(e):
         return exc_name(e) if exc_name else type(e).__name__
 
     def target_app():
+        CLOCK.frozen = {threading.get_ident()}
         try:
             try:
                 if tgt.activate(timeout=1.0, lrt=lrt, rwt=8) is None:
@@ -256,6 +261,14 @@ def run_pair(brty, did, nad, lri, lrt, script, rel, pi, pt, miu_i=None, miu_t=No
                     if k >= len(pt):
                         res.status_t = "ended"
                         return
+                    if t_rtox and k in t_rtox:
+                        # the application asks for more time before it answers the k-th payload
+                        res.rtox_answers.append(tgt.send_timeout_extension(t_rtox[k]))
+                        if peer.dead:
+                            # deselected/released while waiting (send_timeout_extension has no way to
+                            # tell): the application sees the link gone
+                            res.status_t = "none"
+                            return
                     d = tgt.exchange(pt[k], 1e12)
                     k += 1
                 res.status_t = "none"
@@ -332,3 +345,77 @@ def run_scripted(brty, did, nad, miu, script, responses, payload, exc_name=None)
     except Exception as e:  # noqa
         out = "exc " + (exc_name(e) if exc_name else type(e).__name__)
     return air.wire, out
+
+
+class TargetHarness(object):
+    """a real nfc.dep.Target (real activate()) driven frame by frame from the calling thread:
+    deliver(frame) -> response frame or None, corrupt(), stop() -> (payloads returned, status)"""
+
+    def __init__(self, brty, did, lri, pt, miu_t=None, exc_name=None):
+        patch_clock()
+        CLOCK.t = 1000.0
+        self.brty = brty
+        self.air = Air("")
+        self.peer = ThreadPeer()
+        self.tclf = TClf(self.air, self.peer, brty)
+        self.tgt = nfc.dep.Target(self.tclf)
+        self.got, self.status, self.msg = [], "?", ""
+        self.stopped = []
+        name = (lambda e: exc_name(e)) if exc_name else (lambda e: type(e).__name__)
+
+        def app():
+            CLOCK.frozen = {threading.get_ident()}
+            try:
+                try:
+                    if self.tgt.activate(timeout=1.0, lrt=3, rwt=8) is None:
+                        self.status = "inactive"
+                        return
+                    if miu_t is not None:
+                        self.tgt.miu = miu_t
+                    d = self.tgt.exchange(None, 1e12)
+                    k = 0
+                    while d is not None:
+                        self.got.append(bytes(d))
+                        if k >= len(pt):
+                            self.status = "ended"
+                            return
+                        d = self.tgt.exchange(pt[k], 1e12)
+                        k += 1
+                    self.status = "none"
+                except Stall as e:
+                    self.status = "stall " + str(e)
+                except nfc.clf.TimeoutError as e:
+                    self.status = "running" if self.stopped and str(e) == "stop" else "exc TimeoutError"
+                except Exception as e:  # noqa
+                    self.status = "exc " + name(e)
+                    self.msg = str(e)
+            finally:
+                self.peer.dead = True
+                if self.tclf.pending:
+                    self.tclf.pending = False
+                    self.peer.toI.put(None)
+
+        self.th = threading.Thread(target=app, daemon=True)
+        self.th.start()
+        atr = bytes([0xD4, 0x00]) + bytes(range(1, 11)) + bytes([did or 0, 0, 0, (lri << 4)])
+        rsp = self.peer.deliver(self.frame(atr))
+        if rsp is None:
+            raise Stall("target did not answer the ATR_REQ")
+
+    def frame(self, body):
+        f = bytes([len(body) + 1]) + bytes(body)
+        return (b"\xF0" + f) if self.brty == "106A" else f
+
+    def deliver(self, frame):
+        return self.peer.deliver(frame)
+
+    def corrupt(self):
+        self.peer.corrupt()
+
+    def stop(self):
+        self.stopped.append(True)
+        self.peer.toT.put(STOP)
+        self.th.join(JOIN)
+        if self.th.is_alive() or self.status.startswith("stall"):
+            raise Stall("target thread did not finish: " + self.status)
+        return self.got, self.status
